@@ -318,5 +318,8 @@ def check(run):
     # a keyword that names a parameter already given by position: same fate whatever the lookup strategy
     run.rules_run.append("R06k")
     run.rule(c06.r06k, run, _A, _B)
+    # a dependency supplied by position counts as provided (round 8: the `excluded dependency` rows of the strategy table)
+    run.rules_run.append("R06a")
+    run.rule(c06.r06a, run, _A, _B)
     from . import c10
     run.rule(c10.r10e, run, [g for g in run.repo.module('utype.parser.func').functions.values()], rule="R10e", floor=6)
